@@ -175,32 +175,36 @@ def build_input(ex, w, handler, N):
             t, d = w.timeout_qc('in_tqc'); just = mk.adt(R.V + r'v2::leader_proposal::ProposalJustification', 'Timeout', _0=t)
         payload = some(mk.tuple_struct(R.V + r'block::Payload', symgen.BytesV(ex.fresh('payload_len')))) if ex.choose(2, 'payload') == 0 else none()
         lp = mk.adt(R.V + r'v2::leader_proposal::LeaderProposal', proposal_payload=payload, justification=just)
-        signed, sok = w.signed(lp, ex.choose(N + 1, 'author'), 'in')
-        return [signed], dict(just=d)
+        author = ex.choose(N + 1, 'author')
+        signed, sok = w.signed(lp, author, 'in')
+        return [signed], dict(just=d, just_kind=variant_name(just), payload=payload.variant == 1, author=author, sig_ok=sok)
     if handler == 'on_new_view':
         if ex.choose(2, 'just') == 0:
             qc, d = w.commit_qc('in_qc'); just = mk.adt(R.V + r'v2::leader_proposal::ProposalJustification', 'Commit', _0=qc)
         else:
             t, d = w.timeout_qc('in_tqc'); just = mk.adt(R.V + r'v2::leader_proposal::ProposalJustification', 'Timeout', _0=t)
         nv = mk.adt(R.V + r'v2::replica_new_view::ReplicaNewView', justification=just)
-        signed, sok = w.signed(nv, ex.choose(N + 1, 'author'), 'in')
-        return [signed], dict(just=d)
+        author = ex.choose(N + 1, 'author')
+        signed, sok = w.signed(nv, author, 'in')
+        return [signed], dict(just=d, just_kind=variant_name(just), author=author, sig_ok=sok)
     if handler == 'on_commit':
         msg, d = w.replica_commit('in', z3.Int('in_g'), w.num('in_e'))
-        signed, sok = w.signed(msg, ex.choose(N + 1, 'author'), 'in')
-        return [signed], dict(msg=d)
+        author = ex.choose(N + 1, 'author')
+        signed, sok = w.signed(msg, author, 'in')
+        return [signed], dict(msg=d, author=author, sig_ok=sok)
     if handler == 'on_timeout':
         g = z3.Int('in_g'); e = w.num('in_e'); v = w.num('in_view')
-        hv = none(); hq = none()
+        hv = none(); hq = none(); hvd = None; hqd = None
         if getattr(w, 'light', False):
             pass
         elif ex.choose(2, 'in_hv') == 0:
-            hvv, _ = w.replica_commit('in_hv', g, e); hv = some(hvv)
+            hvv, hvd = w.replica_commit('in_hv', g, e); hv = some(hvv)
         if not getattr(w, 'light', False) and ex.choose(2, 'in_hq') == 0:
-            hqv, _ = w.commit_qc('in_hq'); hq = some(hqv)
+            hqv, hqd = w.commit_qc('in_hq'); hq = some(hqv)
         msg = mk.adt(R.V + r'v2::replica_timeout::ReplicaTimeout', view=w.view(g, v, e), high_vote=hv, high_qc=hq)
-        signed, sok = w.signed(msg, ex.choose(N + 1, 'author'), 'in')
-        return [signed], {}
+        author = ex.choose(N + 1, 'author')
+        signed, sok = w.signed(msg, author, 'in')
+        return [signed], dict(tmsg=dict(view=v, g=g, e=e, hv=hvd, hq=hqd), author=author, sig_ok=sok)
     if handler == 'start_timeout':
         return [], {}
     if handler == 'start_new_view':
@@ -272,7 +276,7 @@ def run_one(arg):
             ex.assume(info['new_view'].e == w.adopted_view.e + 1)
         r = R.run_handler(ex, db, w, handler, args)
         obs = check_path(ex, w, handler, r, list(w.log), w.pre, info)
-        return r, obs, [e[0] for e in w.log]
+        return r, obs, [e[0] for e in w.log], w, info
     out = dict(handler=handler, N=N, viol=[], status='discharged')
     try:
         res = explore(ex, body, max_paths=200000, budget_s=budget)
@@ -289,7 +293,7 @@ def run_one(arg):
                 if k not in seen:
                     seen.add(k); out['viol'].append(dict(prop='C10', key=f'{handler}:{k}', text=f'{handler} panics: {val[0]} at {val[1]}', witness=witness(m)))
             continue
-        r, obs, evs = val
+        r, obs, evs, wref, inforef = val
         if 'send' in evs: nontriv += 1
         oc = (str(r)[:40], tuple(evs)); outcomes[oc] = outcomes.get(oc, 0) + 1
         for prop, key, text, cond in obs:
@@ -298,12 +302,51 @@ def run_one(arg):
             st, m = solve(pc, z3.Not(cond))
             if st == 'sat':
                 seen.add(key)
-                out['viol'].append(dict(prop=prop, key=key, text=f'{text} (handler {handler}, N={N})', witness=witness(m), events=evs))
+                conc = None
+                try:
+                    conc = concretize(m, wref, handler, inforef, N) if mode == 'full' else None
+                except Exception as ex_:
+                    conc = None
+                out['viol'].append(dict(prop=prop, key=key, text=f'{text} (handler {handler}, N={N})', witness=witness(m), events=evs, replay=conc))
             elif st != 'unsat':
                 out['status'] = 'inconclusive'; out['detail'] = f'solver: {m}'
     if out['viol']: out['status'] = 'violated'
     out.update(paths=len(res), nontrivial=nontriv, stats=F.stats_dict(ex.stats), wall_s=round(time.time() - t0, 1),
                outcomes=sorted(((v, k[0], list(k[1])) for k, v in outcomes.items()), reverse=True)[:12])
+    return out
+
+
+def concretize(m, w, handler, info, N):
+    """concrete description of a counterexample for the replay generator (plain python data)"""
+    def iv(e):
+        if e is None: return None
+        e = e.e if isinstance(e, Num) else e
+        if isinstance(e, (int, bool)): return e
+        v = m.eval(e, model_completion=True)
+        if z3.is_true(v): return True
+        if z3.is_false(v): return False
+        return v.as_long()
+    g0 = iv(w.g0); e0 = iv(w.e0.e)
+    def rc(d):
+        if d is None: return None
+        return dict(view=iv(d['view']), num=iv(d['num']), hash=iv(d['hash']) % 1000, g_ok=(iv(d['g']) == g0), e_ok=(iv(d['e'].e if isinstance(d['e'], Num) else d['e']) == e0), valid=bool(iv(d.get('valid', True))))
+    def tq(d):
+        if d is None: return None
+        return dict(view=iv(d['view']), g_ok=(iv(d['g']) == g0), e_ok=(iv(d['e'].e if isinstance(d['e'], Num) else d['e']) == e0), valid=bool(iv(d['valid'])), hv=rc(d.get('hv')), hq=rc(d.get('hq')))
+    pre = w.pre
+    out = dict(handler=handler, N=N, weights=[max(1, iv(x.e)) for x in w.ws], first_block=iv(w.first_block.e),
+               pre=dict(view=iv(pre['view']), phase=pre['phase'], hv=rc(pre['hv']), cqc=rc(pre['cqc']), tqc=tq(pre['tqc'])))
+    if 'author' in info: out['author'] = info['author']; out['sig_ok'] = bool(iv(info['sig_ok']))
+    if handler in ('on_proposal', 'on_new_view'):
+        out['just_kind'] = info['just_kind']; out['just'] = rc(info['just']) if info['just_kind'] == 'Commit' else tq(info['just'])
+        out['payload'] = info.get('payload', False)
+        ph = None
+        for d in m.decls():
+            if d.name() == 'payload_hash': ph = m[d].as_long() % 1000
+        out['payload_hash'] = ph if ph is not None else 7
+    if handler == 'on_commit': out['msg'] = rc(info['msg'])
+    if handler == 'on_timeout':
+        t = info['tmsg']; out['tmsg'] = dict(view=iv(t['view']), g_ok=(iv(t['g']) == g0), e_ok=(iv(t['e'].e) == e0), hv=rc(t['hv']), hq=rc(t['hq']))
     return out
 
 
@@ -327,7 +370,30 @@ def run_all(rep, db, tier, props, handlers=('start_timeout', 'start_new_view', '
             rep.add(F.Obligation(name, 'inconclusive', o.get('detail', ''))); continue
         rep.nontrivial += o.get('nontrivial', 0)
         for v in mine:
-            rep.violation(F.Violation(rep.prop, v['key'], v['text'] + ' | witness: ' + v['witness'], None, None))
+            path = None; repro = None
+            if v.get('replay'):
+                try:
+                    from props import replica_replay
+                    import replay as RP
+                    src = replica_replay.gen(v['replay'], v['key'])
+                    rr = RP.run_replay(f'{rep.prop.lower()}_h{len(rep.violations) + len(rep.known_hits)}', src, rustflags='--cfg era_consensus_verif'); rep.replayed += 1
+                    path = rr['path']
+                    cls = replica_replay.key_class(v['key'])
+                    outp = rr['output']
+                    hit = (f'[{cls}]' in outp) if cls != 'panic' else ('panicked at' in outp and 'step obligations violated' not in outp)
+                    unforceable = [e for e in v.get('events', []) if e in ('persist_failed', 'env_fail')]
+                    if rr['reproduced'] is True and hit:
+                        repro = True; v['text'] += ' | replay: reproduced on the real replica (step API)'
+                    elif rr['reproduced'] is None:
+                        rep.add(F.Obligation('replay ' + v['key'], 'inconclusive', 'replay harness failed: ' + outp[-1500:]))
+                        v['text'] += ' | replay: harness failed to build or run'
+                    elif unforceable:
+                        v['text'] += ' | replay: not reproducible by the step replay (the path needs an engine call to fail, which the in-memory engine never does); solver witness only'
+                    else:
+                        repro = False; v['text'] += ' | replay: the real replica did not violate this obligation on the concretised witness'
+                except Exception as ex_:
+                    v['text'] += f' | replay generation failed: {type(ex_).__name__}: {ex_}'
+            rep.violation(F.Violation(rep.prop, v['key'], v['text'] + ' | witness: ' + v['witness'], path, repro))
         rep.add(F.Obligation(name, 'violated' if mine else 'discharged', paths=o.get('paths'), wall_s=o.get('wall_s'), outcomes=o.get('outcomes')))
         if len(rep.samples) < 8 and o.get('outcomes'):
             rep.samples.append(f'{o["handler"]} N={o["N"]}: {o["paths"]} paths; most frequent outcomes {o["outcomes"][:3]}')
